@@ -4,7 +4,9 @@ Decides from the syntax tree / CFG of batch/batch/semaphore.py and batch/batch/w
   R1 safety    every `self.value -= w` is reached only through a test edge that implies `self.value >= w`, atomically
                (no await, no other write in between); the guard is evaluated exhaustively over {<,==,>} x {queue empty, not}
   R2 FIFO      the waiter queue is a deque that is only appended on the right, read at [0] and popleft'ed; the fast path of
-               acquire is taken only when the queue is empty; the (event, weight) layout agrees between writer and reader
+               acquire is taken only when the queue is empty; the (event, weight) layout agrees between writer and reader.  `queue.remove(x)` is accepted only when x is
+               provably the entry THIS invocation enqueued (same expression through single-definition locals, carries an object created by this call, the append dominates
+               the removal): a waiter leaving on its own (abandon, timeout, cancellation) does not change the order of the others; any other removal is reported
   R3 liveness  acquire grants immediately iff (queue empty and value >= weight), otherwise enqueues and waits on the enqueued
                event; release adds the weight back, then loops while the queue is non-empty, wakes the head iff it fits
                (set + popleft + decrement together, atomically) and stops only when the head does not fit
@@ -21,6 +23,15 @@ Decides from the syntax tree / CFG of batch/batch/semaphore.py and batch/batch/w
                closed under thin wrappers and resolved through the class hierarchy), the waiting statement is not inside `async with asyncio.timeout(...)`, and no function that
                (transitively, through awaited same-module calls) waits for the semaphore is handed to such a canceller.  Receivers other than self are decided only when every
                method of that name waits; otherwise the site is declined, never passed.  @asynccontextmanager helpers that acquire around their `yield` are followed to their users
+  R6 head invariant   whenever other coroutines can run, a non-empty queue has a head that does NOT fit.  It is disturbed by every increase of `value` and every removal from the
+               queue (in ANY method, including a waiter removing its own entry): from each such statement every CFG path to the next suspension point / return / raise must
+               pass the wake loop (release's loop, a call of a synchronous method that runs it on every path; private helpers that return disturbed are judged at their call
+               sites); otherwise the new head may fit and stay blocked.  A removal that is reached only inside `except CancelledError` is decided together with R5: it matters
+               iff some acquisition can be cancelled on its own.  An own-entry removal must be guarded, atomically, by `not event.is_set()` / `entry in queue` (granted and
+               abandoned in the same tick: the weight release() took on the waiter's behalf would be lost)
+  R3/R4 conditional acquire   acquire may take optional parameters and may GIVE UP (own entry removed / nothing taken): every exit is classified granted / gave up from the CFG, the
+               returned constants must tell the two apart, acquire's own calls of release give back exactly what the waiter holds (weight after a grant it abandons, 0 otherwise),
+               the context manager keeps the result and releases iff granted, and every `async with cpu_sem(w, <enabling argument>) as x` runs its body only when x says granted
 Does not decide: schedules as such; cancellation of the whole worker at shutdown (task manager) is outside the property; who cancels a task handle stored in an attribute.
 """
 from __future__ import annotations
@@ -32,6 +43,7 @@ from engines import asyncfacts as af
 from engines import c1516facts as cf
 from engines import pyfacts as pf
 from engines.common import AnalysisError, Ctx, short
+from engines.c16norm import normalise
 from engines.inline import inline_methods
 
 META = dict(
@@ -40,7 +52,8 @@ META = dict(
          'atomicity between suspension points, exhaustive evaluation of the extracted guards over the order relation x queue emptiness, '
          'closed set of queue operations, acquire/release pairing on all exits of the context manager and at every use site in the worker '
          '(async with, or manual acquire/release checked on the CFG with exception edges: release on every exit, only after a completed acquire, once, same weight), '
-         'and a who-may-cancel analysis showing that no queued waiter can be abandoned (acquire has no cancellation clean-up). '
+         'a who-may-cancel analysis showing that no queued waiter can be abandoned (acquire has no cancellation clean-up), and the head invariant: after every increase of the counter / removal '
+         'from the queue the wake loop runs before the next suspension point (must-pass on the CFG of every method); give-up capable acquires (abandon / timeout) are followed to the context manager and the worker. '
          'Not a proof over interleavings: the rules are the invariants an interleaving argument needs, checked statement by statement.',
     note='Trusted: CPython ast; engines/pyfacts CFG; asyncio runs one coroutine at a time and only switches at await. '
          'Not decided: weights above capacity; cancellation of the whole worker at shutdown; task handles kept in attributes (declined when they may hold a waiting job).',
@@ -143,6 +156,18 @@ class _Hole:
     def __init__(self, cons: str, msg: str, path: str, line: int):
         self.cons, self.msg, self.path, self.line = cons, msg, path, line
         self.reported = False
+
+
+def _in_cancel_only_handler(m: pf.Module, fn: pf.FuncDef, node: ast.AST) -> bool:
+    """Inside an `except` clause that catches nothing but CancelledError (a timeout / abandon handler is ordinary control flow)."""
+    par = m.parents()
+    cur: Optional[ast.AST] = node
+    while cur is not None and cur is not fn:
+        if isinstance(cur, ast.ExceptHandler):
+            types = cur.type.elts if isinstance(cur.type, ast.Tuple) else [cur.type] if cur.type is not None else []
+            return bool(types) and all(pf.dotted(t) in ('asyncio.CancelledError', 'CancelledError', 'asyncio.exceptions.CancelledError') for t in types)
+        cur = par.get(cur)
+    return False
 
 
 _R6_HISTORY = ('History with capacity 4000: J1(2000) runs; J2(3000) waits at the head, J3(2000) behind it; J2 leaves the queue; J3 is now the oldest waiter and 2000 are free, '
@@ -264,7 +289,7 @@ def _r6_liveness(ctx: Ctx, m: pf.Module, cls: ast.ClassDef) -> List[_Hole]:
                          'call': f'`{what}` returns with the queue/counter changed ({disturbing.get(what.split("(")[0].split(".")[-1], "")})'}[kind]
                 msg = (f'{cause}, but {where} (path: {cf.describe_path(p)}) without running the wake loop of {"/".join(sorted(loops))}: the head of the queue may fit into {VAL} '
                        f'and is not woken. {_R6_HISTORY}')
-                if D.id not in normal_reach and kind == 'removal':
+                if D.id not in normal_reach and kind == 'removal' and _in_cancel_only_handler(m, f, D.ast):
                     # reached only through an exception edge: clean-up of a wait that raised, i.e. was cancelled
                     holes.append(_Hole(cons, msg, m.path, D.lineno))
                     continue
@@ -297,7 +322,7 @@ def _r6_liveness(ctx: Ctx, m: pf.Module, cls: ast.ClassDef) -> List[_Hole]:
                         if not any(l_ == lab for _, l_ in t.succ) or not af.every_path_uses_edge(cfg, D, t, lab) or not af.direct(cfg, t, D, lab):
                             continue
                         still = af.implied_on_edge(t.ast, lab, f'{ev}.is_set()', False) or any(
-                            af.implied_on_edge(t.ast, lab, k, True) for k in (f'{pf.nsrc(c.args[0])} in {Q}', f'{pf.nsrc(ent)} in {Q}'))
+                            af.implied_on_edge(t.ast, lab, f'{k} in {Q}', True) or af.implied_on_edge(t.ast, lab, f'{k} not in {Q}', False) for k in (pf.nsrc(c.args[0]), pf.nsrc(ent)))
                         if still and not any(pf.node_has_await(x) for x in af.between(cfg, t, D, lab)):
                             guarded = True
                 if not guarded:
@@ -318,10 +343,22 @@ class _AcqSpec:
     """What a caller of acquire has to know: can it return WITHOUT holding the weight (the waiter gave up), and how is that signalled."""
 
     def __init__(self) -> None:
+        self.unknown = False                # a violation was reported on acquire's shape: the result convention is not established
         self.conditional = False            # some return is reached after the waiter took its own entry out / before it took anything
         self.granted_truthy = True          # truth value of the result when the weight is held (meaningful when conditional)
         self.extra_params: List[str] = []   # optional parameters after the weight
         self.giveup_needs: List[str] = []   # giving up happens only when one of these optional parameters is not None ([] = not established)
+
+
+def _gives_up(spec: _AcqSpec, passed: set) -> Optional[bool]:
+    """Can an acquisition that passes the optional acquire-parameters `passed` (non-None) return without holding the weight?  None = not established."""
+    if not spec.conditional:
+        return False
+    if not spec.extra_params:
+        return True
+    if spec.giveup_needs:
+        return any(p in passed for p in spec.giveup_needs)
+    return None
 
 
 def _ret_value(n: pf.Node) -> Optional[ast.AST]:
@@ -390,7 +427,16 @@ def _acquire(ctx: Ctx, m: pf.Module, cls: ast.ClassDef, guards: List[af.Guarded]
     # every path from the not-granted edge to the exit enqueues, and then either waits on the event (directly), or learns from `event.is_set()` that it was granted,
     # or takes its own entry out again (gives up: it holds nothing; the result convention is checked below and used by R4)
     miss = af.must_pass(cfg, g.test, lambda n: n is cfg.exit, lambda n: n is A, first_label=other)
-    wait_nodes = [n for n in waits if any(isinstance(x, ast.Await) and pf.call_name(x) == f'{evname}.wait' for x in ast.walk(n.ast))]
+    def waits_on_event(x: ast.AST) -> bool:
+        """`await ev.wait()` or `await asyncio.wait_for(ev.wait(), t)`: normal completion means the event was set."""
+        if not isinstance(x, ast.Await):
+            return False
+        if pf.call_name(x) == f'{evname}.wait':
+            return True
+        v = x.value
+        return isinstance(v, ast.Call) and (pf.dotted(v.func) or '').split('.')[-1] == 'wait_for' and bool(v.args) and isinstance(v.args[0], ast.Call) \
+            and pf.dotted(v.args[0].func) == f'{evname}.wait'
+    wait_nodes = [n for n in waits if any(waits_on_event(x) for x in ast.walk(n.ast))]
     own_rm = [n for n in af.stmt_nodes(cfg, lambda n: af.node_is_call(n, f'{Q}.remove') is not None) if _own_entry(m, af.node_is_call(n, f'{Q}.remove'))[0] == 'own']
     set_edges = [(t, lab) for t in cfg.nodes if t.kind == 'test' for lab in ('T', 'F') if af.implied_on_edge(t.ast, lab, f'{evname}.is_set()', True)]
     thru = wait_nodes + own_rm
@@ -400,6 +446,11 @@ def _acquire(ctx: Ctx, m: pf.Module, cls: ast.ClassDef, guards: List[af.Guarded]
     ok = miss is None and bool(wait_nodes or set_edges)
     if ok:
         ok = af.must_pass(cfg, A, lambda n: n is cfg.exit, lambda n: any(n is x for x in thru), edge_ok=not_granted_edge) is None
+        if not ok:
+            # a path that does suspend (e.g. on a task made from event.wait()) but learns the outcome in a way that is not recognised: not a verdict
+            other_waits = [n for n in waits if not any(n is x for x in wait_nodes)]
+            ctx.need(af.must_pass(cfg, A, lambda n: n is cfg.exit, lambda n: any(n is x for x in thru + other_waits), edge_ok=not_granted_edge) is not None,
+                     f'{qn}: after `{short(other_waits[0].text(), 60) if other_waits else ""}` the waiter does not test `{evname}.is_set()`; how it learns that it was granted is not recognised')
         # nothing between enqueue and a wait may set the event
         for Wn in wait_nodes:
             ok = ok and not any(af.node_is_call(x, f'{evname}.set') for x in af.between(cfg, A, Wn))
@@ -427,6 +478,7 @@ def _acquire(ctx: Ctx, m: pf.Module, cls: ast.ClassDef, guards: List[af.Guarded]
         else:
             ctx.check(zero, 'R4', cons3, f'the waiter was NOT granted anything on this path (its entry was still queued) but gives back `{pf.nsrc(arg)}`: {VAL} exceeds the capacity and later jobs are '
                       'granted more CPU than the worker has (safety); only `release(0)` (re-run the wake loop) is neutral', m.path, n.lineno, detail='release(0): wake loop only')
+    spec.unknown = True
     if ok:
         _result_convention(ctx, m, fn, cfg, g, A, wait_nodes, own_rm, set_edges, spec)
     return [('event' if x == evname else 'weight') for x in layout], spec
@@ -473,6 +525,7 @@ def _result_convention(ctx: Ctx, m: pf.Module, fn: pf.FuncDef, cfg: pf.CFG, g: a
         classes['gave up'].append((rn, v))
     spec.conditional = bool(classes['gave up'])
     if not spec.conditional:
+        spec.unknown = False
         return
     tu = {truth(v) for _, v in classes['gave up']}
     ctx.need(None not in tg and None not in tu, f'{qn}: the result is not a constant on every exit (granted / gave-up convention not analysed)')
@@ -505,6 +558,7 @@ def _result_convention(ctx: Ctx, m: pf.Module, fn: pf.FuncDef, cfg: pf.CFG, g: a
         if allp:
             needs.append(p)
     spec.giveup_needs = needs
+    spec.unknown = False
 
 
 def _release(ctx: Ctx, m: pf.Module, cls: ast.ClassDef, guards: List[af.Guarded], layout: Optional[List[str]]) -> None:
@@ -635,6 +689,8 @@ def _ctx_manager(ctx: Ctx, m: pf.Module, spec: _AcqSpec) -> _CMSpec:
     cfg = pf.cfg(en)
     acqn = af.stmt_nodes(cfg, lambda n: any(isinstance(x, ast.Await) and pf.call_name(x) == f'{sem_f[0]}.acquire' for x in ast.walk(n.ast)))
     cons = f'{F}::{CM}.__aenter__'
+    # positive evidence only: "no acquire found" is a verdict only when the method calls nothing at all; an indirection that is not seen through is declined
+    ctx.need(acqn or not pf.calls_in(en), f'{cons}: no `await {sem_f[0]}.acquire(...)` statement recognised, but the method calls `{pf.nsrc(pf.calls_in(en)[0]) if pf.calls_in(en) else ""}` (not analysed)')
     ok = len(acqn) == 1 and cfg.dominated_by(cfg.exit, lambda n: n is acqn[0])
     flag_f: Optional[str] = None
     if ok:
@@ -653,8 +709,12 @@ def _ctx_manager(ctx: Ctx, m: pf.Module, spec: _AcqSpec) -> _CMSpec:
                 ctx.need(pf.nsrc(a) in extra_f, f'{cons}: `{pf.nsrc(a)}` passed as `{prm}` is not a stored constructor argument')
                 out.extra_to_acquire[extra_f[pf.nsrc(a)]] = prm
     ctx.check(ok, 'R4', cons, f'__aenter__ does not `await {sem_f[0]}.acquire({w_f[0]})` exactly once on every path', m.path, en.lineno)
+    if spec.unknown:
+        plain = ok and isinstance(acqn[0].ast, ast.Expr) and not out.extra_to_acquire
+        ctx.need(plain, f'{CM}: whether acquire can give up is not established (violation reported above); the context manager keeps its result / passes further arguments')
     # can this acquisition give up?  only when it passes an argument that enables giving up
-    may_give_up = spec.conditional and (not spec.giveup_needs or any(p_ in out.extra_to_acquire.values() for p_ in spec.giveup_needs))
+    sure = _gives_up(spec, set(out.extra_to_acquire.values()))
+    may_give_up = sure is not False
     if ok and may_give_up:
         st = acqn[0].ast
         cons2 = cons + '::keeps the result'
@@ -663,6 +723,7 @@ def _ctx_manager(ctx: Ctx, m: pf.Module, spec: _AcqSpec) -> _CMSpec:
             flag_f = pf.nsrc(st.targets[0])
             ctx.ok('R4', cons2, flag_f)
         elif isinstance(st, ast.Expr):
+            ctx.need(sure is True, f'{cons2}: the result of acquire is dropped; whether this acquisition can give up (no optional argument is known to enable it) is not established')
             ctx.bad('R4', cons2, f'`{pf.nsrc(st)}` drops the result of acquire, which can give up waiting (it then holds nothing): __aexit__ cannot know whether there is anything to release, '
                     'and the body runs without its cores', m.path, st.lineno)
         else:
@@ -682,6 +743,7 @@ def _ctx_manager(ctx: Ctx, m: pf.Module, spec: _AcqSpec) -> _CMSpec:
     cfg = pf.cfg(ex)
     rel = af.stmt_nodes(cfg, lambda n: af.node_is_call(n, f'{sem_f[0]}.release') is not None)
     cons = f'{F}::{CM}.__aexit__'
+    ctx.need(rel or not pf.calls_in(ex), f'{cons}: no `{sem_f[0]}.release(...)` statement recognised, but the method calls `{pf.nsrc(pf.calls_in(ex)[0]) if pf.calls_in(ex) else ""}` (not analysed)')
     if flag_f is None and may_give_up:
         pass  # `keeps the result` reported that __aexit__ cannot know whether anything is held
     elif flag_f is None:
@@ -733,11 +795,16 @@ def _ctx_manager(ctx: Ctx, m: pf.Module, spec: _AcqSpec) -> _CMSpec:
     body = af.body_no_doc(call)
     p2 = [a.arg for a in call.args.args]
     ctx.need(len(p2) >= 2 and len(call.args.defaults) >= len(p2) - 2 and not call.args.vararg and not call.args.kwarg, f'{CLS}.__call__ parameters changed: {p2}')
-    ok = len(body) == 1 and isinstance(body[0], ast.Return) and isinstance(body[0].value, ast.Call) and pf.dotted(body[0].value.func) == CM \
-        and [pf.nsrc(a) for a in body[0].value.args] == p2[:len(body[0].value.args)] and len(body[0].value.args) >= 2 \
-        and all(k.arg is not None and isinstance(k.value, ast.Name) for k in body[0].value.keywords)
+    # `return CM(...)`, possibly through a single-definition local (`manager = CM(...); return manager`), positional or keyword arguments
+    rets = [n for n in pf.walk_shallow(call) if isinstance(n, ast.Return)]
+    cc = pf.resolve_expr(call, rets[0].value) if len(rets) == 1 and rets[0].value is not None else None
+    shape = isinstance(cc, ast.Call) and pf.dotted(cc.func) == CM and all(isinstance(s_, (ast.Return, ast.Assign, ast.AnnAssign)) for s_ in body) \
+        and not any(isinstance(a_, ast.Starred) for a_ in cc.args) and all(k.arg is not None for k in cc.keywords)
+    ctx.need(shape or len(rets) != 1 or not any(isinstance(x, ast.Call) and pf.dotted(x.func) == CM for x in ast.walk(call)),
+             f'{CLS}.__call__ builds a {CM} in a way that is not recognised')
+    ok = bool(shape)
+    passed: Dict[str, str] = {}
     if ok:
-        cc = body[0].value  # type: ignore[union-attr]
         passed = dict(zip(params[1:], [pf.nsrc(a_) for a_ in cc.args]))     # constructor parameter -> __call__ expression
         for k in cc.keywords:
             ok = ok and k.arg in params[1:] and k.arg not in passed
@@ -1086,15 +1153,17 @@ def _with_site(ctx: Ctx, m: pf.Module, fn: Optional[pf.FuncDef], cons: str, call
             if k.arg is not None:
                 extra[k.arg] = k.value
     ctx.check(okc, 'R4', cons, 'cpu_sem(...) is not called with exactly the weight (plus optional arguments the semaphore accepts)', m.path, line)
-    if not okc or not spec.conditional:
+    if not okc or not spec.conditional or spec.unknown:
         return
-    enabling = {cp for cp, ap in cms.extra_to_acquire.items() if ap in spec.giveup_needs}
-    if spec.giveup_needs and not any(cp in extra and not (isinstance(extra[cp], ast.Constant) and extra[cp].value is None) for cp in enabling):
+    passed = {cms.extra_to_acquire[cp] for cp, a in extra.items() if cp in cms.extra_to_acquire and not (isinstance(a, ast.Constant) and a.value is None)}
+    sure = _gives_up(spec, passed)
+    if sure is False:
         return  # no argument that enables giving up is passed: this acquisition always ends up holding the weight
     c2 = cons + '::body runs only when granted'
     gave_up = ('the waiter can give up (acquire then returns without holding anything)')
     ov = item.optional_vars
     if ov is None:
+        ctx.need(sure is True, f'{c2}: the result is not bound; whether this acquisition can give up is not established')
         ctx.bad('R4', c2, f'{gave_up}, but the result is not bound (`async with ... as x`) and the body runs regardless: the job runs without holding its cores - more CPU is in use than the '
                 'worker has (safety)', m.path, line)
         return
@@ -1104,6 +1173,7 @@ def _with_site(ctx: Ctx, m: pf.Module, fn: Optional[pf.FuncDef], cons: str, call
     body = stmt.body
     uses = [n for st_ in body for n in ast.walk(st_) if isinstance(n, ast.Name) and n.id == x]
     if not uses:
+        ctx.need(sure is True, f'{c2}: the result is not looked at; whether this acquisition can give up is not established')
         ctx.bad('R4', c2, f'{gave_up}, but the body never looks at `{x}` and runs regardless: the job runs without holding its cores - more CPU is in use than the worker has (safety)',
                 m.path, line)
         return
@@ -1208,6 +1278,7 @@ def _worker_uses(ctx: Ctx, cancel_safe: bool, spec: _AcqSpec, cms: _CMSpec) -> N
                     elif isinstance(px, ast.Call) and px.func is x and isinstance(par.get(px), ast.withitem) and isinstance(par.get(par[px]), ast.AsyncWith):
                         _with_site(ctx, m, fn, f'{rel}::{q}::{pf.nsrc(px)}', px, par[px], par[par[px]], spec, cms)  # type: ignore[arg-type]
                         n_with += 1
+                        sites.append((q, par[par[px]]))
                     else:
                         raise AnalysisError(f'{rel}::{q}: unrecognised use of the cpu_sem alias `{alias}`: `{pf.nsrc(px) if px is not None else alias}`')
             else:
@@ -1330,7 +1401,7 @@ def run(ctx: Ctx) -> None:
                        '{value<w, value==w, value>w} x {queue empty, non-empty}, closed set of deque operations, must-pass analysis of the wake loop, '
                        'pairing of acquire/release in the context manager and closure over all uses of cpu_sem under batch/batch/worker (manual pairing on the CFG with exception edges).')
     ctx.rule('R1', 'every `self.value -= w` is reached only through a test edge implying self.value >= w, with no await / write in between', 2)
-    ctx.rule('R2', 'queue is a deque used only via append / [0] / popleft / emptiness tests; fast path requires an empty queue; tuple layout agrees', 7)
+    ctx.rule('R2', 'queue is a deque used only via append / [0] / popleft / emptiness tests (and removal of the caller\'s OWN entry); fast path requires an empty queue; tuple layout agrees', 7)
     ctx.rule('R3', 'acquire grants immediately iff queue empty and fits, else enqueues and waits; release gives back, then wakes heads while they fit '
                    '(set+popleft+decrement together) and stops only when the head does not fit', 13)
     ctx.rule('R4', 'context manager releases exactly what it acquired on exit; every worker acquisition of cpu_sem is `async with cpu_sem(w)` or a manual acquire '
@@ -1343,6 +1414,30 @@ def run(ctx: Ctx) -> None:
     ctx.assume('requested weights do not exceed the capacity (quantifier of the property)')
     m = pf.load(F)
     ctx.unit('files', 2)
+    cls = m.cls(CLS)
+    # analyse the canonical form: private same-class helpers of acquire / release inlined (engines/inline.py), then the behaviour-preserving spellings of
+    # engines/c16norm.py (predicate helper in a test, `x = x + w`, tuple assignment, boolean local in front of its `if`, local alias of a constructor-set attribute)
+    public = ('acquire', 'release', '__call__', '__init__')
+    try:
+        inl: List[str] = []
+        wakers = []   # helpers that hold the wake loop stay calls inside acquire (R6 recognises a call of a method that runs the loop); release gets them inlined
+        for st in m.cls(CLS).body:
+            if isinstance(st, ast.FunctionDef) and st.name not in public:
+                try:
+                    af.wake_loop(m, m.cls(CLS), st.name, VAL, Q)
+                    wakers.append(st.name)
+                except af.FitNotOnValue:
+                    wakers.append(st.name)
+                except AnalysisError:
+                    pass
+        for target in ('acquire', 'release'):
+            m, il = inline_methods(m, CLS, target, exclude=tuple(x for x in public if x != target) + (tuple(wakers) if target == 'acquire' else ()))
+            inl += [h for h, _ in il.inlined]
+        if inl:
+            ctx.info(f'{F}::{CLS}: analysed with the helper(s) {sorted(set(inl))} inlined')
+    except AnalysisError:
+        m = pf.load(F)
+    m = normalise(m, [CLS, CM])
     cls = m.cls(CLS)
     guards = af.guarded_decrements(ctx, m, cls, 'R1', VAL, [Q])
     _r2_fifo(ctx, m, cls)
